@@ -41,7 +41,7 @@ pub enum RV {
     DivZero,
 }
 
-const PRELUDE: &str = "enum E { EA, EB = 5, EC = -3 };\n\
+pub const PRELUDE: &str = "enum E { EA, EB = 5, EC = -3 };\n\
 static const int ci0 = 0;\nstatic const int ci1 = 1;\nstatic const int cim1 = -1;\nstatic const int cimin = -2147483648;\n\
 static const int cimax = 2147483647;\nstatic const int ci31 = 31;\nstatic const int ci32 = 32;\nstatic const int ci7 = 7;\n\
 static const uint cu0 = 0u;\nstatic const uint cu1 = 1u;\nstatic const uint cumax = 4294967295u;\nstatic const uint cu31 = 31u;\n\
@@ -84,7 +84,7 @@ fn named(name: &str) -> RV {
     }
 }
 
-const NAMES: &[&str] = &[
+pub const NAMES: &[&str] = &[
     "ci0", "ci1", "cim1", "cimin", "cimax", "ci31", "ci32", "ci7", "cu0", "cu1", "cumax", "cu31", "cu32", "cu231", "cu5", "cbt", "cbf", "cf15",
     "cfneg", "cfbig", "cfhuge", "cftiny", "ch05", "cd", "cdneg",
 ];
@@ -525,7 +525,7 @@ pub fn eval(e: &CE, st: &mut EvalStats) -> RV {
 // ---------------------------------------------------------------------------------------------
 // rendering (with type repair so that the program is well-typed)
 
-fn render_expr(e: &CE, out: &mut String) -> RV {
+pub fn render_expr(e: &CE, out: &mut String) -> RV {
     // returns the reference value so that callers can repair operand types
     let mut st = EvalStats { interesting: false };
     match e {
@@ -663,7 +663,7 @@ fn repair(e: &CE) -> CE {
     }
 }
 
-fn ce_strategy() -> impl Strategy<Value = CE> {
+pub fn ce_strategy() -> impl Strategy<Value = CE> {
     let leaf = prop_oneof![
         4 => any::<u16>().prop_map(|r| CE::Int(*pick(INT_LITS, r))),
         2 => any::<u16>().prop_map(|r| CE::UInt(*pick(UINT_LITS, r))),
